@@ -40,7 +40,7 @@ def gen_default(rng, ty):
     return ['novalue']
 
 
-def gen_overload(rng, fid, arity, kindmix, nk, names=('a', 'b', 'c', 'd', 'e')):
+def gen_overload(rng, fid, arity, kindmix, nk, names=('a', 'b', 'c', 'd', 'e'), gen_type=gen_type):
     n = max(0, arity + rng.choice([-1, 0, 0, 0, 0, 1]))
     n = min(n, len(names))
     params = []
@@ -230,3 +230,88 @@ def gen_call(rng, layers, pc=None):
     seen = set()
     call['kw'] = [x for x in pykw if not (x[0] in seen or seen.add(x[0]))]    # Python keywords are unique
     return call
+
+
+# ---------------------------------------------------------------- call histories (C05)
+
+def lattice_type(rng, bias_lattice=None):
+    """plain class types over Base > L, R > D: a D instance satisfies all of them at once"""
+    return ['py', rng.choice(['Base', 'L', 'R', 'D', 'object', 'Base']), rng.random() < 0.1]
+
+
+def gen_pool(rng):
+    """the overloads a history draws from: {fid: ospec}, one arity, mostly one name"""
+    arity = rng.choice([0, 1, 1, 2, 2, 2, 3])
+    kindmix = rng.choice([['function'], ['function'], ['function'], ['function', 'extension'], ['extension'],
+                          ['method', 'extension'], ['function', 'method', 'extension'], ['method']])
+    r = rng.random()
+    if r < 0.9:
+        nk = lambda: False
+    elif r < 0.95:
+        nk = lambda: True
+    else:
+        nk = lambda: rng.random() < 0.5
+    style = rng.choice(['general', 'lattice', 'lattice', 'lattice'])
+    two_names = rng.random() < 0.15
+    defs = {}
+    for fid in range(rng.choice([2, 3, 3, 4, 4, 5, 6])):
+        o = gen_overload(rng, fid, arity, kindmix, nk, gen_type=gen_type if style == 'general' else lattice_type)
+        if two_names and rng.random() < 0.4:
+            o['fname'] = 'g'
+        defs[fid] = o
+    return style, defs
+
+
+def gen_history(rng, max_ctx=7):
+    """-> dict(defs, steps): contexts are created, overloads registered (some exclusively, some twice, some in
+    several contexts) and deleted, and calls are made in between from old and new contexts"""
+    style, defs = gen_pool(rng)
+    fids = sorted(defs)
+    pc = ProbeCounter()
+    steps = [['root']]
+    parent = [None]
+    for _ in range(rng.choice([0, 1, 1, 2, 2, 3])):
+        steps.append(['child', len(parent) - 1])
+        parent.append(len(parent) - 1)
+    placed = []             # (context, fid) pairs registered so far
+    calls = []              # call steps made so far
+
+    def fname(f):
+        return defs[f].get('fname', 'f')
+
+    def a_call():
+        i = max(rng.randrange(len(parent)), rng.randrange(len(parent)))
+        if calls and rng.random() < 0.4:
+            old = rng.choice(calls)
+            return ['call', i if rng.random() < 0.6 else old[1], old[2], old[3]]
+        known = sorted({f for _, f in placed}) if placed and rng.random() < 0.8 else fids
+        name = fname(rng.choice(known))
+        fns = [defs[f] for f in known if fname(f) == name]
+        return ['call', i, gen_call(rng, [dict(fns=fns)], pc), name]
+
+    for _ in range(rng.randrange(6, 16)):
+        r = rng.random()
+        if r < 0.42:
+            fresh = [f for f in fids if f not in {g for _, g in placed}]
+            f = rng.choice(fresh) if fresh and rng.random() < 0.85 else rng.choice(fids)
+            i = rng.randrange(len(parent))
+            steps.append(['reg', i, f, rng.random() < 0.15])
+            placed.append((i, f))
+        elif r < 0.82:
+            st = a_call()
+            steps.append(st)
+            calls.append(st)
+        elif r < 0.91:
+            if len(parent) < max_ctx:
+                i = rng.randrange(len(parent))
+                steps.append(['child', i])
+                parent.append(i)
+        else:
+            if placed and rng.random() < 0.8:
+                i, f = rng.choice(placed)
+            else:
+                i, f = rng.randrange(len(parent)), rng.choice(fids)
+            steps.append(['del', i, f])
+    for _ in range(rng.choice([1, 2])):
+        steps.append(a_call())
+    return dict(style=style, defs={str(k): v for k, v in defs.items()}, steps=steps)
